@@ -186,7 +186,13 @@ fn transform(
         return Ok(0);
     }
 
-    let output_dimension = options.dimension.unwrap_or(number_of_dimensions_in_input);
+    // If the output dimension is not given as option "-D", it is estimated from the
+    // input - once (from the first batch), so the output format does not change at
+    // the internal batch boundaries
+    static ESTIMATED_DIMENSION: std::sync::OnceLock<usize> = std::sync::OnceLock::new();
+    let output_dimension = options
+        .dimension
+        .unwrap_or_else(|| *ESTIMATED_DIMENSION.get_or_init(|| number_of_dimensions_in_input));
 
     // When roundtripping, we must keep a copy of the input to be able
     // to compute the roundtrip differences
